@@ -131,7 +131,7 @@ func (c16) Gen(seed uint64, run int, tier string) *core.Case {
 	r := sim.Rng(seed, "gen")
 	cfg := swarmCfg(r, 3)
 	cfg.Versioning = true
-	p := c16Prog{Part: []string{"names", "existing", "settings", "race", "race", "race"}[run%6]}
+	p := c16Prog{Part: []string{"names", "existing", "settings", "race", "race", "race", "create-race"}[run%7]}
 	c := &core.Case{Check: "C16", Property: "C16", Seed: seed, Cfg: cfg}
 	switch p.Part {
 	case "names":
@@ -163,6 +163,13 @@ func (c16) Gen(seed uint64, run int, tier string) *core.Case {
 				st.Kind = "restart"
 			}
 			p.Steps = append(p.Steps, st)
+		}
+	case "create-race":
+		cfg.Instances = 1 + r.IntN(2)
+		if r.IntN(2) == 0 {
+			c.Sched = core.Sched{Policy: sim.Rand, PreemptP: []float64{0.05, 0.2, 0.5}[r.IntN(3)]}
+		} else {
+			c.Sched = core.Sched{Policy: sim.PCT, Depth: 1 + r.IntN(3), EstSteps: 60}
 		}
 	case "race":
 		cfg.Instances = 1 + r.IntN(2)
@@ -511,6 +518,49 @@ func (c16) Exec(c *core.Case) (out *core.Outcome) {
 					}
 				}
 			}
+		}
+	case "create-race":
+		// two accounts create the same new bucket at the same time: exactly one of them may be told it
+		// succeeded, and the bucket belongs to that one
+		const b = "contested16"
+		applySched(e.S, &core.Case{Sched: sched})
+		var r1, r2 *env.Result
+		e.S.NewTask("creator1", nil, 0, func() {
+			cl := own()
+			cl.GW = 0
+			r1 = cl.Do(s3c.CreateBucket(b))
+		})
+		e.S.NewTask("creator2", nil, 1, func() {
+			cl := oth()
+			cl.GW = len(e.GWs) - 1
+			r2 = cl.Do(s3c.CreateBucket(b))
+		})
+		e.S.Run()
+		if a := e.S.Aborted(); a != "" {
+			return inconclusive(c, "%s", a)
+		}
+		if len(e.Panics) > 0 {
+			return inconclusive(c, "gateway panic: %s", e.Panics[0].Value)
+		}
+		o.Evals = 1
+		e.S.Policy = sim.Seq
+		o.Probe("race_overlap")
+		o.AddClass("create-race|%d|%d|il=%016x", r1.Resp.Status, r2.Resp.Status, e.S.Interleave)
+		desc := fmt.Sprintf("own16 CreateBucket -> %d %s, oth16 CreateBucket -> %d %s at the same time (%s, %d instances)", r1.Resp.Status, r1.Resp.ErrCode(), r2.Resp.Status, r2.Resp.ErrCode(), cfgClass(c.Cfg), len(e.GWs))
+		switch {
+		case r1.Resp.OK() && r2.Resp.OK():
+			o.Violate("create-race", "C16/create-race/both-creators-acknowledged", "%s: creating a bucket that exists must fail, both were told they created it", desc)
+		case r1.Resp.OK() || r2.Resp.OK():
+			winner := "own16"
+			if r2.Resp.OK() {
+				winner = "oth16"
+			}
+			lb := root.Do(s3c.AdminListBuckets())
+			if lb.Resp.OK() && !bytes.Contains(lb.Resp.Body, []byte("<Owner>"+winner+"</Owner>")) {
+				o.Violate("create-race", "C16/create-race/bucket-not-owned-by-the-acknowledged-creator", "%s: the admin bucket list does not show %s as the owner: %s", desc, winner, abbreviate(string(lb.Resp.Body), 300))
+			}
+		default:
+			o.Probe("both_creators_refused")
 		}
 	case "race":
 		const b = "race16"
